@@ -1,6 +1,6 @@
 (** Facts about the key formats (C03, C06). *)
 From Playback Require Import Base.Str Base.StrFacts Values.PyVal Values.SortFacts Values.Codec Values.CodecFacts
-  Values.KeyFormat.
+  Values.KeyFormat Values.JsonWf Values.JsonFacts.
 From Coq Require Import Permutation Lia.
 Open Scope list_scope.
 
@@ -91,11 +91,11 @@ Section Key.
     rewrite (veq_same_flatten qp a1 a2 W1 W2 V1), (veq_same_flatten qp _ _ W3 W4 V2). reflexivity.
   Qed.
 
-  (** Injectivity.  The two facts about json.dumps that it rests on are hypotheses here
-      (injective; the text of a container is self-delimiting). *)
-  Definition container (j : json) : Prop := match j with JArr _ | JObj _ => True | _ => False end.
-  Hypothesis dumps_inj : forall a b, dumps a = dumps b -> a = b.
-  Hypothesis dumps_delim : forall a b x y, container a -> container b -> dumps a ++ x = dumps b ++ y -> a = b.
+  (** Injectivity.  The two facts about json.dumps that it rests on are proved in JsonFacts.v on
+      the well-formed trees [jwf] ([dumps_inj]: injective; [dumps_delim]: the text of a container is
+      self-delimiting); [flatten_jwf] puts the flattened captured values there, given that the
+      quoted-printable oracle maps byte strings to surrogate-free text. *)
+  Hypothesis qp_ascii : forall b, is_bytes b = true -> str_ok (qp b) = true.
 
   Definition no_eq_sign (alias : str) : Prop := ~ In 61%N alias.
 
@@ -121,14 +121,20 @@ Section Key.
     - intros E. destruct (select_list_shape _ _ _ _ _ _ _ E) as [l' ->]. eexists; right; reflexivity.
   Qed.
 
+  Lemma vdom_split v : vdom v = true -> wf v = true /\ leaves_ok v = true.
+  Proof. unfold vdom. apply andb_true_iff. Qed.
+
   Theorem ikey_injective al1 al2 cap1 cap2 st1 st2 args1 k1 args2 k2 a1 kw1 a2 kw2 key :
     no_eq_sign al1 -> no_eq_sign al2 ->
     select cap1 st1 args1 k1 = Selected a1 kw1 -> select cap2 st2 args2 k2 = Selected a2 kw2 ->
-    wf a1 = true -> wf a2 = true -> wf (kwargs_value kw1) = true -> wf (kwargs_value kw2) = true ->
+    vdom a1 = true -> vdom a2 = true -> vdom (kwargs_value kw1) = true -> vdom (kwargs_value kw2) = true ->
     ikey enc al1 cap1 st1 args1 k1 = Some key -> ikey enc al2 cap2 st2 args2 k2 = Some key ->
     al1 = al2 /\ veq a1 a2 /\ veq (kwargs_value kw1) (kwargs_value kw2).
   Proof.
-    intros N1 N2 S1 S2 W1 W2 W3 W4. unfold ikey, encode_with. rewrite S1, S2.
+    intros N1 N2 S1 S2 D1 D2 D3 D4.
+    destruct (vdom_split _ D1) as [W1 L1]. destruct (vdom_split _ D2) as [W2 L2].
+    destruct (vdom_split _ D3) as [W3 L3]. destruct (vdom_split _ D4) as [W4 L4].
+    unfold ikey, encode_with. rewrite S1, S2.
     destruct (flatten qp a1) as [ja1|] eqn:F1; [|discriminate].
     destruct (flatten qp (kwargs_value kw1)) as [jk1|] eqn:G1; [|discriminate].
     destruct (flatten qp a2) as [ja2|] eqn:F2; [|discriminate].
@@ -147,8 +153,10 @@ Section Key.
     apply app_inv_tail in Ea. split; [exact Ea|].
     assert (C1 : container ja1) by (eapply flatten_container_args; [eapply select_shape; exact S1|exact F1]).
     assert (C2 : container ja2) by (eapply flatten_container_args; [eapply select_shape; exact S2|exact F2]).
-    pose proof (dumps_delim _ _ _ _ C1 C2 Er) as Eja. subst ja2.
-    apply app_inv_head in Er. apply app_inv_head in Er. apply dumps_inj in Er. subst jk2.
+    pose proof (flatten_jwf qp qp_ascii _ W1 L1 _ F1) as J1. pose proof (flatten_jwf qp qp_ascii _ W2 L2 _ F2) as J2.
+    pose proof (flatten_jwf qp qp_ascii _ W3 L3 _ G1) as J3. pose proof (flatten_jwf qp qp_ascii _ W4 L4 _ G2) as J4.
+    destruct (dumps_delim _ _ _ _ J1 J2 C1 C2 Er) as [Eja Ek]. subst ja2.
+    apply app_inv_head in Ek. apply (dumps_inj _ _ J3 J4) in Ek. subst jk2.
     split; unfold veq.
     - eapply flatten_injective; eauto. congruence.
     - eapply flatten_injective; eauto. congruence.
